@@ -1,7 +1,593 @@
-//! C07 — not built yet.
-use lv_common::Ctx;
+//! C07 — Bad-encoding fraud proofs are sound and complete.
+use celestia_proto::proof::pb::Proof as RawProof;
+use celestia_proto::share::eds::byzantine::pb::{BadEncoding as RawBefp, Share as RawSwp};
+use celestia_types::consts::appconsts::AppVersion;
+use celestia_types::fraud_proof::{BadEncodingFraudProof, FraudProof};
+use celestia_types::nmt::{NamespaceProof, Nmt};
+use celestia_types::{DataAvailabilityHeader, ExtendedDataSquare, ExtendedHeader};
+use lv_common::Prng;
+use lv_common::prelude::*;
+use lv_gen::chain;
+use lv_gen::square::{SquareSpec, build_square, square_strategy};
+use lv_gen::sqx::{Corruption, RawSquare, corrupt, corruption_strategy, panic_site};
+use prost::Message;
+use tendermint_proto::Protobuf;
 
-pub fn run(_ctx: &mut Ctx) {
-    eprintln!("C07: check not built yet");
-    std::process::exit(2);
+#[derive(Clone, Debug, Serialize, Deserialize, PartialEq)]
+pub enum Present {
+    All,
+    /// exactly half, chosen at random
+    ExactHalf(u64),
+    /// half plus a random surplus
+    AtLeastHalf(u64),
+    DataHalf,
+    ParityHalf,
+    /// one fewer than half
+    Fewer(u64),
+}
+
+#[derive(Clone, Debug, Serialize, Deserialize, PartialEq)]
+pub enum ProofAxes {
+    Same,
+    Orthogonal,
+    Mixed(u64),
+}
+
+#[derive(Clone, Debug, Serialize, Deserialize, PartialEq)]
+pub enum Adv {
+    None,
+    /// two proven shares exchange slots (each keeps its own proof); region 0: both in the data half,
+    /// 1: one in each half, 2: both in the parity half, 3: anywhere
+    SwapSlots { a: u16, b: u16, region: u8 },
+    /// the proven share of slot a copied into slot b
+    DupSlot { a: u16, b: u16 },
+    /// all proven shares rotated by `by` slots
+    Rotate { by: u16 },
+    Reverse,
+    /// one slot filled with the proven share of the same slot of another axis index
+    SubstituteSlot { slot: u16, other: u16 },
+    /// every slot filled from another axis index (all proofs honest for that other axis)
+    SubstituteAll { other: u16 },
+    /// proof claims another index than the one its shares come from
+    ClaimOtherIndex { other: u16 },
+    WrongHeight { d: i8 },
+    WrongHash,
+    /// shares list cut to n entries
+    TruncateShares { n: u16 },
+    /// one more (absent or duplicated) entry
+    ExtendShares { dup: bool },
+    IndexOutOfRange { by: u16 },
+    /// axis flag flipped, everything else kept
+    FlipAxis,
+    /// proof-axis flag of one share flipped, proof kept
+    FlipProofAxis { slot: u16 },
+    AlterShare { slot: u16, pos: u16, bit: u8 },
+    /// namespace prefix of the leaf replaced (parity <-> share's own)
+    LieNamespace { slot: u16 },
+    ShiftProofRange { slot: u16, ds: i8, de: i8 },
+    DropSibling { slot: u16, i: u16 },
+    SwapSiblings { slot: u16, i: u16, j: u16 },
+    /// the share of a slot replaced by the share of another slot, keeping the slot's own proof
+    ShareOnly { slot: u16, from: u16 },
+}
+
+#[derive(Clone, Debug, Serialize, Deserialize)]
+pub struct BefpSpec {
+    pub row_axis: bool,
+    pub index: u16,
+    /// aim at an axis that is really broken (when there is one)
+    pub aim: bool,
+    pub present: Present,
+    pub proof_axes: ProofAxes,
+    pub adv: Adv,
+}
+
+#[derive(Clone, Debug, Serialize, Deserialize)]
+pub struct Case {
+    pub square: SquareSpec,
+    pub corruptions: Vec<Corruption>,
+    pub hseed: u64,
+    pub height: u64,
+    pub proofs: Vec<BefpSpec>,
+}
+
+fn present_strategy() -> impl Strategy<Value = Present> {
+    prop_oneof![
+        3 => Just(Present::All),
+        3 => any::<u64>().prop_map(Present::ExactHalf),
+        2 => any::<u64>().prop_map(Present::AtLeastHalf),
+        1 => Just(Present::DataHalf),
+        1 => Just(Present::ParityHalf),
+        1 => any::<u64>().prop_map(Present::Fewer),
+    ]
+}
+
+fn axes_strategy() -> impl Strategy<Value = ProofAxes> {
+    prop_oneof![2 => Just(ProofAxes::Same), 2 => Just(ProofAxes::Orthogonal), 2 => any::<u64>().prop_map(ProofAxes::Mixed)]
+}
+
+fn adv_strategy() -> impl Strategy<Value = Adv> {
+    let u = any::<u16>;
+    prop_oneof![
+        8 => (u(), u(), 0u8..4).prop_map(|(a, b, region)| Adv::SwapSlots { a, b, region }),
+        3 => (u(), u()).prop_map(|(a, b)| Adv::DupSlot { a, b }),
+        2 => u().prop_map(|by| Adv::Rotate { by }),
+        1 => Just(Adv::Reverse),
+        3 => (u(), u()).prop_map(|(slot, other)| Adv::SubstituteSlot { slot, other }),
+        3 => u().prop_map(|other| Adv::SubstituteAll { other }),
+        2 => u().prop_map(|other| Adv::ClaimOtherIndex { other }),
+        1 => (-2i8..=2).prop_map(|d| Adv::WrongHeight { d }),
+        1 => Just(Adv::WrongHash),
+        1 => u().prop_map(|n| Adv::TruncateShares { n }),
+        1 => any::<bool>().prop_map(|dup| Adv::ExtendShares { dup }),
+        1 => u().prop_map(|by| Adv::IndexOutOfRange { by }),
+        2 => Just(Adv::FlipAxis),
+        2 => u().prop_map(|slot| Adv::FlipProofAxis { slot }),
+        2 => (u(), u(), 0u8..8).prop_map(|(slot, pos, bit)| Adv::AlterShare { slot, pos, bit }),
+        1 => u().prop_map(|slot| Adv::LieNamespace { slot }),
+        2 => (u(), -2i8..=2, -2i8..=2).prop_map(|(slot, ds, de)| Adv::ShiftProofRange { slot, ds, de }),
+        1 => (u(), u()).prop_map(|(slot, i)| Adv::DropSibling { slot, i }),
+        1 => (u(), u(), u()).prop_map(|(slot, i, j)| Adv::SwapSiblings { slot, i, j }),
+        2 => (u(), u()).prop_map(|(slot, from)| Adv::ShareOnly { slot, from }),
+    ]
+}
+
+fn spec_strategy() -> impl Strategy<Value = BefpSpec> {
+    (any::<bool>(), any::<u16>(), any::<bool>(), present_strategy(), axes_strategy(), prop_oneof![2 => Just(Adv::None), 5 => adv_strategy()])
+        .prop_map(|(row_axis, index, aim, present, proof_axes, adv)| BefpSpec { row_axis, index, aim, present, proof_axes, adv })
+}
+
+fn adv_label(a: &Adv) -> &'static str {
+    match a {
+        Adv::None => "adv-none",
+        Adv::SwapSlots { .. } => "adv-swap-slots",
+        Adv::DupSlot { .. } => "adv-dup-slot",
+        Adv::Rotate { .. } => "adv-rotate",
+        Adv::Reverse => "adv-reverse",
+        Adv::SubstituteSlot { .. } => "adv-substitute-slot",
+        Adv::SubstituteAll { .. } => "adv-substitute-all",
+        Adv::ClaimOtherIndex { .. } => "adv-claim-other-index",
+        Adv::WrongHeight { .. } => "adv-wrong-height",
+        Adv::WrongHash => "adv-wrong-hash",
+        Adv::TruncateShares { .. } => "adv-truncate-shares",
+        Adv::ExtendShares { .. } => "adv-extend-shares",
+        Adv::IndexOutOfRange { .. } => "adv-index-out-of-range",
+        Adv::FlipAxis => "adv-flip-axis",
+        Adv::FlipProofAxis { .. } => "adv-flip-proof-axis",
+        Adv::AlterShare { .. } => "adv-alter-share",
+        Adv::LieNamespace { .. } => "adv-lie-namespace",
+        Adv::ShiftProofRange { .. } => "adv-shift-proof-range",
+        Adv::DropSibling { .. } => "adv-drop-sibling",
+        Adv::SwapSiblings { .. } => "adv-swap-siblings",
+        Adv::ShareOnly { .. } => "adv-share-only",
+    }
+}
+
+struct Env {
+    raw: RawSquare,
+    eds: ExtendedDataSquare,
+    header: ExtendedHeader,
+    row_nmts: Vec<Option<Nmt>>,
+    col_nmts: Vec<Option<Nmt>>,
+    row_cw: Vec<bool>,
+    col_cw: Vec<bool>,
+}
+
+impl Env {
+    fn proof(&mut self, row_tree: bool, tree: usize, leaf: usize) -> RawProof {
+        let slot = if row_tree { &mut self.row_nmts[tree] } else { &mut self.col_nmts[tree] };
+        if slot.is_none() {
+            *slot = Some(if row_tree { self.eds.row_nmt(tree as u16) } else { self.eds.column_nmt(tree as u16) }.expect("axis nmt"));
+        }
+        let (_, p) = slot.as_mut().unwrap().get_range_with_proof(leaf..leaf + 1);
+        RawProof::from(NamespaceProof::from(p))
+    }
+
+    /// the share in slot `slot` of axis (row_axis, idx), proven at its own position, by a proof on
+    /// the same axis or on the orthogonal one
+    fn proven(&mut self, row_axis: bool, idx: usize, slot: usize, orthogonal: bool) -> RawSwp {
+        let (r, c) = RawSquare::coord(row_axis, idx, slot);
+        let proof_row = row_axis != orthogonal;
+        let (tree, leaf) = if proof_row { (r, c) } else { (c, r) };
+        let mut data = self.raw.ns_at(r, c).to_vec();
+        data.extend_from_slice(self.raw.share(r, c));
+        RawSwp { data, proof: Some(self.proof(proof_row, tree, leaf)), proof_axis: if proof_row { 0 } else { 1 } }
+    }
+
+    fn codeword(&self, row_axis: bool, idx: usize) -> bool {
+        if row_axis { self.row_cw[idx] } else { self.col_cw[idx] }
+    }
+}
+
+fn choose(n: usize, count: usize, seed: u64) -> Vec<bool> {
+    let mut rng = Prng::new(seed);
+    let mut pos: Vec<usize> = (0..n).collect();
+    for i in 0..count.min(n) {
+        let j = i + rng.below((n - i) as u64) as usize;
+        pos.swap(i, j);
+    }
+    let mut p = vec![false; n];
+    for &i in &pos[..count.min(n)] {
+        p[i] = true;
+    }
+    p
+}
+
+struct Built {
+    raw: RawBefp,
+    /// every present entry is the share of its own slot with an honest proof, nothing else altered
+    pristine: bool,
+    present: usize,
+}
+
+fn build(env: &mut Env, spec: &BefpSpec, idx: usize) -> Built {
+    let w = env.raw.w;
+    let k = w / 2;
+    let present: Vec<bool> = match &spec.present {
+        Present::All => vec![true; w],
+        Present::ExactHalf(s) => choose(w, k, *s),
+        Present::AtLeastHalf(s) => choose(w, k + (Prng::new(*s ^ 77).below(k as u64 + 1) as usize), *s),
+        Present::DataHalf => (0..w).map(|i| i < k).collect(),
+        Present::ParityHalf => (0..w).map(|i| i >= k).collect(),
+        Present::Fewer(s) => choose(w, k.saturating_sub(1), *s),
+    };
+    let mut orth_rng = Prng::new(match &spec.proof_axes {
+        ProofAxes::Mixed(s) => *s,
+        _ => 0,
+    });
+    let orth: Vec<bool> = (0..w)
+        .map(|_| match &spec.proof_axes {
+            ProofAxes::Same => false,
+            ProofAxes::Orthogonal => true,
+            ProofAxes::Mixed(_) => orth_rng.below(2) == 1,
+        })
+        .collect();
+    let mut shares: Vec<RawSwp> = (0..w).map(|i| if present[i] { env.proven(spec.row_axis, idx, i, orth[i]) } else { RawSwp::default() }).collect();
+    let mut raw = RawBefp {
+        header_hash: env.header.hash().as_bytes().to_vec(),
+        height: env.header.height(),
+        shares: vec![],
+        index: idx as u32,
+        axis: if spec.row_axis { 0 } else { 1 },
+    };
+    let honest = RawBefp { shares: shares.clone(), ..raw.clone() };
+    let present_idx: Vec<usize> = (0..w).filter(|&i| present[i]).collect();
+    let pick_present = |sel: u16| -> Option<usize> { if present_idx.is_empty() { None } else { Some(present_idx[pick(sel, present_idx.len())]) } };
+    let other_idx = |sel: u16| -> usize {
+        // another index of the same axis
+        let o = pick(sel, w - 1);
+        if o >= idx { o + 1 } else { o }
+    };
+    match &spec.adv {
+        Adv::None => {}
+        Adv::SwapSlots { a, b, region } => {
+            let lo: Vec<usize> = present_idx.iter().copied().filter(|i| *i < k).collect();
+            let hi: Vec<usize> = present_idx.iter().copied().filter(|i| *i >= k).collect();
+            let (sa, sb): (&[usize], &[usize]) = match region {
+                0 => (&lo, &lo),
+                1 => (&lo, &hi),
+                2 => (&hi, &hi),
+                _ => (&present_idx, &present_idx),
+            };
+            if !sa.is_empty() && !sb.is_empty() {
+                let (x, y) = (sa[pick(*a, sa.len())], sb[pick(*b, sb.len())]);
+                shares.swap(x, y);
+            }
+        }
+        Adv::DupSlot { a, b } => {
+            if let (Some(x), Some(y)) = (pick_present(*a), pick_present(*b)) {
+                shares[y] = shares[x].clone();
+            }
+        }
+        Adv::Rotate { by } => {
+            let n = present_idx.len();
+            if n > 1 {
+                let by = 1 + pick(*by, n - 1);
+                let vals: Vec<RawSwp> = present_idx.iter().map(|i| shares[*i].clone()).collect();
+                for (j, i) in present_idx.iter().enumerate() {
+                    shares[*i] = vals[(j + by) % n].clone();
+                }
+            }
+        }
+        Adv::Reverse => {
+            let vals: Vec<RawSwp> = present_idx.iter().rev().map(|i| shares[*i].clone()).collect();
+            for (j, i) in present_idx.iter().enumerate() {
+                shares[*i] = vals[j].clone();
+            }
+        }
+        Adv::SubstituteSlot { slot, other } => {
+            if let Some(s) = pick_present(*slot) {
+                shares[s] = env.proven(spec.row_axis, other_idx(*other), s, orth[s]);
+            }
+        }
+        Adv::SubstituteAll { other } => {
+            let o = other_idx(*other);
+            for &s in &present_idx {
+                shares[s] = env.proven(spec.row_axis, o, s, orth[s]);
+            }
+        }
+        Adv::ClaimOtherIndex { other } => {
+            raw.index = other_idx(*other) as u32;
+        }
+        Adv::WrongHeight { d } => {
+            let d = if *d == 0 { 1 } else { *d };
+            raw.height = raw.height.wrapping_add(d as i64 as u64).max(1);
+        }
+        Adv::WrongHash => {
+            raw.header_hash[7] ^= 0x10;
+        }
+        Adv::TruncateShares { n } => {
+            shares.truncate(pick(*n, w));
+        }
+        Adv::ExtendShares { dup } => {
+            let extra = if *dup { shares[present_idx.first().copied().unwrap_or(0)].clone() } else { RawSwp::default() };
+            shares.push(extra);
+        }
+        Adv::IndexOutOfRange { by } => {
+            raw.index = (w + pick(*by, 3 * w)) as u32;
+        }
+        Adv::FlipAxis => {
+            raw.axis = 1 - raw.axis;
+        }
+        Adv::FlipProofAxis { slot } => {
+            if let Some(s) = pick_present(*slot) {
+                shares[s].proof_axis = 1 - shares[s].proof_axis;
+            }
+        }
+        Adv::AlterShare { slot, pos, bit } => {
+            if let Some(s) = pick_present(*slot) {
+                let n = shares[s].data.len();
+                let p = lv_gen::refs::NS + pick(*pos, n - lv_gen::refs::NS);
+                shares[s].data[p] ^= 1 << bit;
+            }
+        }
+        Adv::LieNamespace { slot } => {
+            if let Some(s) = pick_present(*slot) {
+                let ns = lv_gen::refs::NS;
+                let own: Vec<u8> = shares[s].data[ns..2 * ns].to_vec();
+                let lie = if shares[s].data[..ns] == lv_gen::refs::PARITY_NS { own } else { lv_gen::refs::PARITY_NS.to_vec() };
+                // only lies that are themselves well-formed namespaces reach validate
+                shares[s].data[..ns].copy_from_slice(&lie);
+            }
+        }
+        Adv::ShiftProofRange { slot, ds, de } => {
+            if let Some(s) = pick_present(*slot) {
+                let p = shares[s].proof.as_mut().unwrap();
+                p.start += *ds as i64;
+                p.end += *de as i64;
+            }
+        }
+        Adv::DropSibling { slot, i } => {
+            if let Some(s) = pick_present(*slot) {
+                let p = shares[s].proof.as_mut().unwrap();
+                if !p.nodes.is_empty() {
+                    let i = pick(*i, p.nodes.len());
+                    p.nodes.remove(i);
+                }
+            }
+        }
+        Adv::SwapSiblings { slot, i, j } => {
+            if let Some(s) = pick_present(*slot) {
+                let p = shares[s].proof.as_mut().unwrap();
+                if p.nodes.len() > 1 {
+                    let (i, j) = (pick(*i, p.nodes.len()), pick(*j, p.nodes.len()));
+                    p.nodes.swap(i, j);
+                }
+            }
+        }
+        Adv::ShareOnly { slot, from } => {
+            if let Some(s) = pick_present(*slot) {
+                let f = pick(*from, w);
+                let (r, c) = RawSquare::coord(spec.row_axis, idx, f);
+                let mut data = shares[s].data[..lv_gen::refs::NS].to_vec();
+                data.extend_from_slice(env.raw.share(r, c));
+                shares[s].data = data;
+            }
+        }
+    }
+    let present = shares.iter().filter(|s| s.proof.is_some()).count();
+    raw.shares = shares;
+    let pristine = raw == honest;
+    Built { raw, pristine, present }
+}
+
+enum Verdict {
+    Accepted,
+    Rejected(String),
+    Panicked(String),
+}
+
+fn judge(env: &Env, raw: &RawBefp) -> Verdict {
+    let wire = raw.encode_to_vec();
+    let r = lv_common::no_panic(|| {
+        let befp = <BadEncodingFraudProof as Protobuf<RawBefp>>::decode(&wire[..]).map_err(|e| format!("decode: {e}"))?;
+        befp.validate(&env.header).map_err(|e| format!("validate: {e}"))
+    });
+    match r {
+        Ok(Ok(())) => Verdict::Accepted,
+        Ok(Err(e)) => Verdict::Rejected(e),
+        Err(rec) => Verdict::Panicked(rec),
+    }
+}
+
+fn run_spec(env: &mut Env, spec: &BefpSpec, case: &Case, honest_square: bool, obs: &mut Obs) -> Result<(), Failure> {
+    let w = env.raw.w;
+    let k = w / 2;
+    // index: aimed at a broken axis when asked and possible
+    let broken: Vec<usize> = (0..w).filter(|&i| !env.codeword(spec.row_axis, i)).collect();
+    let idx = if spec.aim && !broken.is_empty() { broken[pick(spec.index, broken.len())] } else { pick(spec.index, w) };
+    let built = build(env, spec, idx);
+    let raw = &built.raw;
+    let al = adv_label(&spec.adv);
+    let partial = built.present < raw.shares.len();
+    let forged = !built.pristine;
+    let nontrivial = (honest_square && forged) || (!honest_square && partial);
+    obs.eval(nontrivial.then(|| digest_bytes(&raw.encode_to_vec()) ^ case.hseed));
+    obs.label(al);
+    obs.label(if honest_square { "honest-square" } else { "corrupted-square" });
+    if partial {
+        obs.label("partial-befp");
+    }
+    match spec.proof_axes {
+        ProofAxes::Same => obs.label("same-axis-proofs"),
+        ProofAxes::Orthogonal => obs.label("orthogonal-proofs"),
+        ProofAxes::Mixed(_) => obs.label("mixed-axis-proofs"),
+    }
+    if idx >= k {
+        obs.label("parity-axis");
+    }
+    if let Adv::SwapSlots { region, .. } = &spec.adv {
+        if forged {
+            obs.label(match region {
+                0 => "permute-within-data-half",
+                1 => "swap-data-parity",
+                2 => "permute-within-parity-half",
+                _ => "permute-anywhere",
+            });
+        }
+    }
+    // ground truth for the axis the proof finally indicates
+    let claimed_axis_row = raw.axis == 0;
+    let claimed_idx = raw.index as usize;
+    let indicated_broken = (raw.axis == 0 || raw.axis == 1) && claimed_idx < w && !env.codeword(claimed_axis_row, claimed_idx);
+    let describe = |v: &str| {
+        format!(
+            "{v}: EDS width {w}, {} square, BEFP axis {} index {} (shares taken from index {idx}), {} of {} entries present, proofs {:?}, adversarial step {:?}; indicated axis is {}",
+            if honest_square { "honestly encoded" } else { "corrupted" },
+            if raw.axis == 0 { "Row" } else { "Col" },
+            raw.index,
+            built.present,
+            raw.shares.len(),
+            spec.proof_axes,
+            spec.adv,
+            if indicated_broken { "NOT a codeword" } else { "a codeword (or does not exist)" }
+        )
+    };
+    let complete_case = built.pristine && indicated_broken && built.present >= k;
+    if complete_case {
+        obs.label("complete-befp-case");
+    }
+    match judge(env, raw) {
+        Verdict::Accepted => {
+            obs.label("befp-validated");
+            if matches!(spec.adv, Adv::WrongHash) {
+                obs.label("validated-with-foreign-header-hash");
+                obs.note("validate() does not compare the proof's header_hash with header.hash(); the node looks the header up by that hash, so the binding is the caller's (observation, not asserted)");
+            }
+            if raw.height != env.header.height() {
+                obs.fail("C07:befp-validates-for-other-height", describe("validated against a header of another height"))?;
+            }
+            if !indicated_broken {
+                let sig = if built.pristine { "C07:honest-befp-validates-on-codeword-axis" } else { "C07:forged-befp-validates-on-codeword-axis" };
+                obs.fail(sig, describe("fraud proof VALIDATED although the indicated axis of the committed square is correctly encoded"))?;
+            }
+        }
+        Verdict::Rejected(e) => {
+            if complete_case {
+                obs.fail("C07:complete-befp-rejected", describe(&format!("fraud proof with >= half of the shares of a broken axis, each proven at its own position, was REJECTED ({e})")))?;
+            }
+        }
+        Verdict::Panicked(rec) => {
+            let site = format!("panic-site:{}", panic_site(&rec));
+            obs.label(&site);
+            if complete_case {
+                obs.fail("C07:complete-befp-panicked", describe(&format!("validate panicked ({rec}) on a fraud proof with >= half of the shares of a broken axis, each proven at its own position")))?;
+            } else {
+                obs.label("panicked-instead-of-rejecting");
+                obs.sample(&site, json!({"width": w, "axis": raw.axis, "index": raw.index, "present": built.present, "adv": format!("{:?}", spec.adv), "proof_axes": format!("{:?}", spec.proof_axes), "honest_square": honest_square, "panic": rec}));
+                obs.note(format!("validate panicked on an adversarial or unnecessary fraud proof (never-panics is owned by C16): {rec}"));
+            }
+        }
+    }
+    Ok(())
+}
+
+fn check(case: &Case, obs: &mut Obs) -> Result<(), Failure> {
+    let app = AppVersion::V3;
+    let sq = build_square(&case.square, app);
+    let honest_raw = RawSquare::from_eds(&sq.eds);
+    let mut raw = honest_raw.clone();
+    for c in &case.corruptions {
+        corrupt(&mut raw, c);
+    }
+    let w = raw.w;
+    let eds = raw.to_eds(app).map_err(|e| Failure::new("gen", format!("corrupted square rejected by ExtendedDataSquare::new: {e}")))?;
+    let dah = DataAvailabilityHeader::from_eds(&eds);
+    let row_cw: Vec<bool> = (0..w).map(|i| raw.axis_is_codeword(true, i)).collect();
+    let col_cw: Vec<bool> = (0..w).map(|i| raw.axis_is_codeword(false, i)).collect();
+    let honest_square = row_cw.iter().chain(&col_cw).all(|b| *b);
+    if honest_square != (raw == honest_raw) {
+        return Err(Failure::new("gen", "ground truth inconsistent: square changed but every axis is a codeword (or vice versa)"));
+    }
+    let (set, keys) = chain::build_set(case.hseed, &[(0, 10), (1, 7)]);
+    let time = tendermint::Time::from_unix_timestamp(1_700_000_000 + (case.hseed % 1000) as i64, 0).unwrap();
+    let header = chain::build_header(case.hseed, "private", case.height.max(1), 3, time, None, &set, &keys, set.hash(), &[], dah, 0);
+    let mut env = Env { raw, eds, header, row_nmts: (0..w).map(|_| None).collect(), col_nmts: (0..w).map(|_| None).collect(), row_cw, col_cw };
+
+    // systematic part: every axis/index (sampled above width 8)
+    let idxs: Vec<usize> = if w <= 8 { (0..w).collect() } else { vec![0, 1, w / 2 - 1, w / 2, w / 2 + 1, w - 1, pick((case.hseed >> 8) as u16, w), pick((case.hseed >> 24) as u16, w)] };
+    for row_axis in [true, false] {
+        for &i in &idxs {
+            let sel = ((i as u64 * 65536 + 32768) / w as u64) as u16; // pick(sel, w) == i
+            debug_assert_eq!(pick(sel, w), i);
+            let s = case.hseed ^ (i as u64) << 3 ^ row_axis as u64;
+            let sys = [
+                (Present::All, ProofAxes::Same, Adv::None),
+                (Present::All, ProofAxes::Orthogonal, Adv::None),
+                (Present::ExactHalf(s), ProofAxes::Mixed(s), Adv::None),
+                (Present::All, ProofAxes::Same, Adv::SwapSlots { a: 0, b: 40000, region: 0 }),
+                (Present::All, ProofAxes::Same, Adv::SwapSlots { a: (s >> 5) as u16, b: (s >> 21) as u16, region: 1 }),
+                (Present::All, ProofAxes::Orthogonal, Adv::SubstituteAll { other: (s >> 7) as u16 }),
+            ];
+            for (present, proof_axes, adv) in sys {
+                let spec = BefpSpec { row_axis, index: sel, aim: false, present, proof_axes, adv };
+                run_spec(&mut env, &spec, case, honest_square, obs)?;
+            }
+        }
+    }
+    for spec in &case.proofs {
+        run_spec(&mut env, spec, case, honest_square, obs)?;
+    }
+    Ok(())
+}
+
+pub fn run(ctx: &mut Ctx) {
+    ctx.assume("committed square = raw shares of a generated EDS, optionally edited after extension and rebuilt with ExtendedDataSquare::new (which does not check the code); DAH = DataAvailabilityHeader::from_eds of that square; header built by lv_gen::chain::build_header over that DAH");
+    ctx.assume("ground truth 'axis is a Reed-Solomon codeword' = re-encoding its data half with leopard_codec directly and comparing with its parity half; roots are consistent with the committed shares by construction");
+    ctx.assume("honest share proofs are produced by the repo's own Nmt (row_nmt/column_nmt + get_range_with_proof); adversarial BEFPs go through the raw protobuf type and BadEncodingFraudProof::decode");
+    ctx.assume("validate() is not required to compare header_hash with the header (the node fetches the header by that hash); only counted");
+    ctx.essential(&[
+        "honest-square",
+        "corrupted-square",
+        "permute-within-data-half",
+        "swap-data-parity",
+        "orthogonal-proofs",
+        "mixed-axis-proofs",
+        "partial-befp",
+        "complete-befp-case",
+        "parity-axis",
+        "adv-substitute-all",
+        "adv-dup-slot",
+        "adv-claim-other-index",
+        "adv-wrong-height",
+        "adv-truncate-shares",
+    ]);
+    let hi = ctx.tier.pick(4, 5); // EDS width 4..32 quick, ..64 thorough
+    let cases = ctx.tier.pick(2000, 10000);
+    ctx.proptest(
+        "befp",
+        "per case: a generated EDS (width 4..32), honest (40%) or with 1-3 post-extension corruptions (edited shares of one axis in the data half / parity half / both, one original share changed with only its row or only its column re-extended, two parity shares exchanged); header over its DAH. BEFPs: systematically for every axis/index (sampled above width 8) all-present same-axis / orthogonal / half-present mixed proofs, adjacent swap in the data half, data<->parity swap, all shares substituted from another index with orthogonal proofs; plus 30-50 generated (axis, index, present subset, proof-axis mix, adversarial step: slot swaps by region, duplicate, rotate, reverse, substitute one/all shares from another index, claim another index, wrong height/hash, wrong length, index out of range, axis / proof-axis flag flips, altered share, namespace lie, shifted range, sibling edits, share-only swap). Oracle: validate Ok => same height and the indicated axis of the committed square is not a codeword; pristine proof (>= half of a broken axis, each share proven at its own position) => Ok, no panic. Non-trivial = forged BEFP on an honest square, or partial BEFP on a corrupted one (distinct by encoded proof)",
+        cases,
+        move || {
+            (
+                square_strategy(1, hi),
+                prop_oneof![2 => Just(vec![]), 3 => prop::collection::vec(corruption_strategy(), 1..4)],
+                any::<u64>(),
+                prop_oneof![Just(1u64), 2u64..100000],
+                prop::collection::vec(spec_strategy(), 30..50),
+            )
+                .prop_map(|(square, corruptions, hseed, height, proofs)| Case { square, corruptions, hseed, height, proofs })
+        },
+        check,
+    );
 }
